@@ -73,7 +73,8 @@ def run(ctx):
                     picks = rng.sample(pubs, min(len(pubs), rng.randint(1, 2)))
                     extra_private = info[m]["private"][:1]
                     pairs = [(p, p + f"_{step}" if rng.random() < 0.5 else p) for p in picks]
-                    src = f"require {m} import [" + ", ".join((a if a == b else f"{a} as {b}") for a, b in pairs + [(x, x) for x in extra_private]) + "]"
+                    priv_pairs = [(x, x if rng.random() < 0.5 else f"alias{step}_{x.strip('_')}") for x in extra_private]
+                    src = f"require {m} import [" + ", ".join((a if a == b else f"{a} as {b}") for a, b in pairs + priv_pairs) + "]"
                     expect_new = {b for _, b in pairs}
                     import_pairs = pairs
                 else:
